@@ -71,15 +71,19 @@ func (k KeyCfg) Effective() (CertRef, bool) {
 // SPConfig is the JSON-serialisable configuration a check builds its service
 // provider from. A fresh SAMLServiceProvider is built for every evaluation.
 type SPConfig struct {
-	ACS       string    `json:"acs"`
-	SLO       string    `json:"slo"`
-	IdPIssuer string    `json:"idpIssuer"`
-	SPIssuer  string    `json:"spIssuer"`
-	Audience  string    `json:"audience"`
-	IdPSSO    string    `json:"idpSSO"`
-	IdPSLO    string    `json:"idpSLO"`
-	Store     []CertRef `json:"store"`
-	NoStore   bool      `json:"noStore,omitempty"`
+	ACS       string `json:"acs"`
+	SLO       string `json:"slo"`
+	IdPIssuer string `json:"idpIssuer"`
+	SPIssuer  string `json:"spIssuer"`
+	Audience  string `json:"audience"`
+	IdPSSO    string `json:"idpSSO"`
+	IdPSLO    string `json:"idpSLO"`
+	// IdPSSOBinding / IdPSLOBinding: the (informational) binding identifiers of the IdP endpoints, as copied from
+	// IdP metadata; the library's builders are named after the binding they produce and do not depend on them
+	IdPSSOBinding string    `json:"idpSSOBinding,omitempty"`
+	IdPSLOBinding string    `json:"idpSLOBinding,omitempty"`
+	Store         []CertRef `json:"store"`
+	NoStore       bool      `json:"noStore,omitempty"`
 	// DynStore: the IdP certificate store is a custom (non-memory) implementation, see DynStore.
 	DynStore bool   `json:"dynStore,omitempty"`
 	Skip     bool   `json:"skip"`
@@ -165,6 +169,8 @@ func (c SPConfig) Build() *saml2.SAMLServiceProvider {
 	sp := &saml2.SAMLServiceProvider{
 		IdentityProviderSSOURL:      c.IdPSSO,
 		IdentityProviderSLOURL:      c.IdPSLO,
+		IdentityProviderSSOBinding:  c.IdPSSOBinding,
+		IdentityProviderSLOBinding:  c.IdPSLOBinding,
 		IdentityProviderIssuer:      c.IdPIssuer,
 		AssertionConsumerServiceURL: c.ACS,
 		ServiceProviderSLOURL:       c.SLO,
